@@ -9,9 +9,18 @@ for id in $ids; do
   checks=$(python3 -c "import json;print(' '.join(json.load(open('seeded/$id/meta.json'))['caught_by']))")
   W=$(mktemp -d /tmp/wt-seedre-XXXXXX); rmdir $W
   git -C /repo worktree add -q --detach $W HEAD || exit 2
+  applied=1
   if ! git -C $W apply /verif/seeded/$id/patch.diff 2>/dev/null; then
-    echo "$id: PATCH NO LONGER APPLIES"; bad=1
-  else
+    # /repo has moved on (fix: commits): carry the change over with a three-way merge and keep the result
+    if ( cd $W && git apply --3way /verif/seeded/$id/patch.diff >/dev/null 2>&1 && git reset -q ); then
+      [ -f seeded/$id/patch.orig.diff ] || cp seeded/$id/patch.diff seeded/$id/patch.orig.diff
+      ( cd $W && git diff ) > seeded/$id/patch.diff
+      echo "$id: patch carried over to the current /repo (patch.orig.diff keeps the delivered one)"
+    else
+      echo "$id: PATCH NO LONGER APPLIES (not even three-way)"; bad=1; applied=0
+    fi
+  fi
+  if [ $applied = 1 ]; then
     for c in $checks; do
       VERIF_REPO=$W ./check $c --tier quick > /tmp/seedre.out 2>&1; rc=$?
       n=$(grep -c '^VIOLATION' /tmp/seedre.out)
